@@ -88,14 +88,11 @@ theorem describeRT_uniq (env : Env) : ∀ (n : Nat) (rt : RT) (c : DescCtx), Uni
            (describeRT env n p.2 acc.2).2))
         (fun b x hb => ih x.2 b.2 hb)
         (JsVal.sortBy (fun (a b : String × RT) => JsVal.strLe a.1 b.1) props) ([], c) h
-      have h2 := foldl_inv Uniq (fun (b : List (Option String × String) × DescCtx) => b.2)
-        (fun (acc : List (Option String × String) × DescCtx) (p : RT × RT) =>
-          (acc.1 ++ [((describeRT env n p.2 (describeRT env n p.1 acc.2).2).1.docText,
-            "[K in " ++ (describeRT env n p.1 acc.2).1.typeExpr ++ "]" ++ (if isOptional p.2 then "?" else "") ++ ": " ++
-              (describeRT env n p.2 (describeRT env n p.1 acc.2).2).1.typeExpr)],
-           (describeRT env n p.2 (describeRT env n p.1 acc.2).2).2))
-        (fun b x hb => ih x.2 _ (ih x.1 b.2 hb)) ix ([], _) h1
-      split <;> (try split) <;> exact h2
+      -- the index-signature loop: whatever text it prints (the key variable is chosen among K, K_, …), its context steps
+      -- are two descriptions
+      split <;> (try split) <;>
+        exact foldl_inv Uniq (fun (b : List (Option String × String) × DescCtx) => b.2) _
+          (fun b x hb => ih x.2 _ (ih x.1 b.2 hb)) ix ([], _) h1
     | _ => simpa [describeRT] using h
 
 /-- the definitions printed by `describe()` have pairwise distinct names -/
